@@ -493,6 +493,106 @@ Proof.
     b2p. lia.
 Qed.
 
+(** * A successful conversion is exactly this error-free specification (maps only) *)
+Fixpoint spec_tagged {A} (sel : pinst -> list A) (idx : Z) (l : list pinst) : list (tagged A) :=
+  match l with
+  | [] => []
+  | i :: r => tag_all idx i (sel i) ++ spec_tagged sel (idx + 1) r
+  end.
+Fixpoint spec_infos (idx : Z) (l : list pinst) : list info :=
+  match l with
+  | [] => []
+  | i :: r => (match pi_name i with [] => [] | _ => [mkInfo idx (pi_name i)] end) ++ spec_infos (idx + 1) r
+  end.
+Definition note_of (t : tagged pnote) : note :=
+  mkNote (pn_pitch (tg_ev t)) (pn_vel (tg_ev t)) (pn_start (tg_ev t)) (pn_end (tg_ev t))
+         (tg_instr t) (tg_prog t) (tg_drum t) 0 0 0.
+Definition bend_of (t : tagged pbend) : bend :=
+  mkBend (pbd_time (tg_ev t)) (pbd_pitch (tg_ev t)) (tg_instr t) (tg_prog t) (tg_drum t).
+Definition cc_of (t : tagged pcc) : cc :=
+  mkCc (pc_time (tg_ev t)) 0 (pc_number (tg_ev t)) (pc_value (tg_ev t)) (tg_instr t) (tg_prog t) (tg_drum t).
+Definition tsig_of (t : ptsig) : tsig := mkTsig (pt_time t) (pt_num t) (pt_den t).
+Definition ksig_of (k : pkey) : ksig :=
+  mkKsig (pk_time k) (pk_number k mod 12) (if pk_number k / 12 =? 0 then KS_MAJOR else KS_MINOR).
+Definition spec (m : pm) : cseq :=
+  mkCseq (mkSeq (map note_of (spec_tagged pi_notes 0 (pm_insts m)))
+                (map conv_tempo (pm_tempos m)) (map tsig_of (pm_tsigs m)) (map ksig_of (pm_keys m)) []
+                (map cc_of (spec_tagged pi_ccs 0 (pm_insts m)))
+                (map bend_of (spec_tagged pi_bends 0 (pm_insts m))) []
+                (fold_left upd_total (all_notes m) 0) 0 0 0 (0, 0) (pm_res m) 0)
+         (spec_infos 0 (pm_insts m)) SRC_PRETTY_MIDI ENC_MIDI.
+
+Lemma mapM_ok_map {A B} (f : A -> result B) (g : A -> B) :
+  (forall a b, f a = Ok b -> b = g a) -> forall l r, mapM f l = Ok r -> r = map g l.
+Proof.
+  intros Hf. induction l as [|x l IH]; cbn [mapM]; intros r H.
+  - inversion H; reflexivity.
+  - destruct (f x) as [y|] eqn:Ex; cbn [bind] in H; [|discriminate].
+    destruct (mapM f l) as [ys|] eqn:El; cbn [bind] in H; [|discriminate].
+    inversion H; subst. cbn [map]. f_equal; [apply Hf; assumption | apply IH; reflexivity].
+Qed.
+
+Lemma set_int32_inv z y : set_int32 z = Ok y -> y = z.
+Proof. unfold set_int32. destruct (int32_ok z); intros H; inversion H; reflexivity. Qed.
+
+Ltac bind_inv H :=
+  repeat match type of H with
+  | bind (set_int32 ?z) _ = Ok _ =>
+      let y := fresh "y" in let E := fresh "E" in
+      destruct (set_int32 z) as [y|] eqn:E; cbn [bind] in H; [apply set_int32_inv in E; subst y | discriminate]
+  end.
+
+Lemma conv_note_spec t n : conv_note t = Ok n -> n = note_of t.
+Proof. unfold conv_note. intros H. bind_inv H. inversion H; reflexivity. Qed.
+Lemma conv_bend_spec t b : conv_bend t = Ok b -> b = bend_of t.
+Proof. unfold conv_bend. intros H. bind_inv H. inversion H; reflexivity. Qed.
+Lemma conv_cc_spec t c : conv_cc t = Ok c -> c = cc_of t.
+Proof. unfold conv_cc. intros H. bind_inv H. inversion H; reflexivity. Qed.
+Lemma conv_tsig_spec t s : conv_tsig t = Ok s -> s = tsig_of t.
+Proof.
+  unfold conv_tsig. intros H. bind_inv H. destruct (int32_ok (pt_den t)); inversion H; reflexivity.
+Qed.
+Lemma conv_key_spec k s : conv_key k = Ok s -> s = ksig_of k.
+Proof.
+  unfold conv_key, ksig_of. intros H. destruct (pk_number k / 12 =? 0); [inversion H; reflexivity|].
+  destruct (pk_number k / 12 =? 1); inversion H; reflexivity.
+Qed.
+
+Lemma gather_spec : forall l idx tot g,
+  gather idx l tot = Ok g ->
+  g_infos g = spec_infos idx l /\ g_notes g = spec_tagged pi_notes idx l /\
+  g_bends g = spec_tagged pi_bends idx l /\ g_ccs g = spec_tagged pi_ccs idx l.
+Proof.
+  induction l as [|i l IH]; intros idx tot g H; cbn [gather] in H.
+  - inversion H; subst. cbn. repeat split.
+  - destruct (conv_info idx i) as [inf|] eqn:Ei; cbn [bind] in H; [|discriminate].
+    destruct (gather (idx + 1) l (fold_left upd_total (pi_notes i) tot)) as [g'|] eqn:Eg; cbn [bind] in H; [|discriminate].
+    inversion H; subst. cbn. destruct (IH _ _ _ Eg) as [I1 [I2 [I3 I4]]].
+    rewrite I1, I2, I3, I4. repeat split. f_equal.
+    unfold conv_info in Ei. destruct (pi_name i) as [|c0 nm]; [inversion Ei; reflexivity|].
+    unfold set_string in Ei. destruct (existsb surrogate (c0 :: nm)); cbn [bind] in Ei; [discriminate|].
+    bind_inv Ei. inversion Ei; reflexivity.
+Qed.
+
+Theorem convert_ok_is_spec fixed m c : convert_gen fixed m = Ok c -> c = spec m.
+Proof.
+  unfold convert_gen. intros H.
+  destruct (fixed && (pm_res m <=? 0)); [discriminate|].
+  bind_inv H.
+  destruct (mapM conv_tsig (pm_tsigs m)) as [ts|] eqn:Ets; cbn [bind] in H; [|discriminate].
+  destruct (mapM conv_key (pm_keys m)) as [ks|] eqn:Eks; cbn [bind] in H; [|discriminate].
+  destruct (gather 0 (pm_insts m) 0) as [g|] eqn:Eg; cbn [bind] in H; [|discriminate].
+  destruct (mapM conv_note (g_notes g)) as [ns|] eqn:En; cbn [bind] in H; [|discriminate].
+  destruct (mapM conv_bend (g_bends g)) as [bs|] eqn:Eb; cbn [bind] in H; [|discriminate].
+  destruct (mapM conv_cc (g_ccs g)) as [cs|] eqn:Ec; cbn [bind] in H; [|discriminate].
+  inversion H; subst. unfold spec.
+  destruct (gather_spec _ _ _ _ Eg) as [G1 [G2 [G3 G4]]].
+  destruct (gather_total _ _ _ _ Eg) as [G5 _].
+  rewrite (mapM_ok_map _ _ conv_tsig_spec _ _ Ets), (mapM_ok_map _ _ conv_key_spec _ _ Eks),
+    (mapM_ok_map _ _ conv_note_spec _ _ En), (mapM_ok_map _ _ conv_bend_spec _ _ Eb),
+    (mapM_ok_map _ _ conv_cc_spec _ _ Ec), G1, G2, G3, G4, G5. reflexivity.
+Qed.
+
 (** * The boolean well-formedness used by the runner is implied by [c16_wf] *)
 Lemma c16_wf_wfb c : c16_wf c -> c16_wfb c = true.
 Proof.
